@@ -31,6 +31,7 @@ INDEX = {
  ]},
  "C03": {"package": "./roaring", "harnesses": [
    {"name": "VerifH03Isolation", "common": {"max_depth": 3000}, "quick": {"bounds": {"atyps": 1, "array": 2, "runs": 1, "words": 1, "bases": 1, "wordmask6": 1, "runlen": 2, "derivations": 7, "mutations": 5, "kinds": 1, "btyps": 1}}, "thorough": {"bounds": {"array": 2, "runs": 1, "words": 1, "bases": 1, "wordmask6": 1, "runlen": 2, "derivations": 7, "mutations": 7, "kinds": 2, "btyps": 2}, "max_paths": 600000}},
+   {"name": "VerifH03Operands", "common": {"max_depth": 3000}, "quick": {"bounds": {"fulls": 3, "atyps": 2, "btyps": 2, "array": 2, "runs": 1, "words": 1, "bases": 1, "wordmask6": 1, "runlen": 2, "derivations": 4, "mutations": 2}}},
    {"name": "VerifH03TimeRangeResults", "thorough_ok": True, "package": ".", "common": {"max_depth": 3000}, "quick": {"bounds": {"quanta": 2}}, "thorough": {"bounds": {"quanta": 3}}},
  ]},
  "C04": {"package": "./roaring", "harnesses": [
@@ -72,6 +73,7 @@ INDEX = {
  ]},
  "C10": {"package": ".", "harnesses": [
    {"name": "VerifH10Checksums", "thorough_ok": True, "common": {"max_depth": 2000}, "quick": {"bounds": {"ops": 9, "rows": 2, "colhis": 1, "caches": 3}}, "thorough": {"bounds": {"ops": 9, "rows": 3, "colhis": 2, "caches": 3}}},
+   {"name": "VerifH10ValueChecksums", "common": {"max_depth": 4000}, "quick": {"bounds": {"maxopns": 2, "depth": 2, "ops1": 1, "ops": 4, "cols": 1}}, "thorough": {"bounds": {"maxopns": 2, "depth": 2, "ops1": 4, "ops": 4, "cols": 2}}},
  ]},
  "C11": {"package": ".", "harnesses": [
    {"name": "VerifH11MergeBlock", "common": {"max_depth": 2000}, "quick": {"bounds": {"local": 1, "remotes": 2, "pairs": 2, "rows": 2, "colhis": 1}}, "thorough": {"bounds": {"local": 2, "remotes": 3, "pairs": 2, "rows": 3, "colhis": 2}}},
